@@ -320,6 +320,7 @@ pub struct Report {
     pub extra: BTreeMap<String, Value>,
     pub violations: Vec<Violation>,
     pub filtered_out: BTreeMap<String, u64>,
+    pub counters: BTreeMap<String, u64>,
 }
 
 pub fn hash64(s: &str) -> u64 {
@@ -354,6 +355,7 @@ impl Report {
             extra: BTreeMap::new(),
             violations: vec![],
             filtered_out: BTreeMap::new(),
+            counters: BTreeMap::new(),
         }
     }
     pub fn thorough(&self) -> bool {
@@ -363,6 +365,9 @@ impl Report {
         if self.samples.len() < 6 {
             self.samples.push(v);
         }
+    }
+    pub fn count(&mut self, what: &str) {
+        *self.counters.entry(what.to_string()).or_insert(0) += 1;
     }
     pub fn filtered(&mut self, why: &str) {
         *self.filtered_out.entry(why.to_string()).or_insert(0) += 1;
@@ -390,6 +395,9 @@ impl Report {
         }
         for (k, v) in other.extra {
             self.extra.insert(k, v);
+        }
+        for (k, v) in other.counters {
+            *self.counters.entry(k).or_insert(0) += v;
         }
     }
 
@@ -461,6 +469,7 @@ impl Report {
         }
         coverage.insert("samples".into(), json!(self.samples));
         coverage.insert("filtered_out".into(), json!(self.filtered_out));
+        coverage.insert("counters".into(), json!(self.counters));
         coverage.insert("known_findings_reproduced".into(), json!(known_lines.values().map(|x| x.0).sum::<u64>()));
         for (k, v) in &self.extra {
             coverage.insert(k.clone(), v.clone());
